@@ -1034,13 +1034,17 @@ package app
 //@   ensures obs.cascade [C16,C04]: result.IsCascade == has(app.cluster.cascadeNodes, host)
 //@   ensures obs.ping_recheck [C05,C04,C10]: reached("Ping", 1) ==> result.PingOk == resultof("Ping", 1, 0)
 //@   ensures obs.no_disk_report [C18]: result.DiskState == nil
+//@   ensures obs.no_daemon_report [C05]: result.DaemonState == nil && !result.IsFileSystemReadonly
 //@ func (*app.App).getLocalNodeState
+//@   ensures obs.daemon [C05]: reached("getLocalDaemonState", 1) && (resultof("getLocalDaemonState", 1, 1) != nil ==> result.DaemonState == nil) && (resultof("getLocalDaemonState", 1, 1) == nil ==> result.DaemonState == resultof("getLocalDaemonState", 1, 0))
+//@   ensures obs.fs_readonly [C05]: reached("IsFileSystemReadonly", 1) && (resultof("IsFileSystemReadonly", 1, 1) != nil ==> !result.IsFileSystemReadonly) && (resultof("IsFileSystemReadonly", 1, 1) == nil ==> (result.IsFileSystemReadonly <==> resultof("IsFileSystemReadonly", 1, 0)))
 //@   ensures obs.disk [C18]: reached("GetDiskUsage", 1) && (resultof("GetDiskUsage", 1, 2) != nil ==> result.DiskState == nil) && (resultof("GetDiskUsage", 1, 2) == nil ==> result.DiskState != nil && result.DiskState.Used == resultof("GetDiskUsage", 1, 0) && result.DiskState.Total == resultof("GetDiskUsage", 1, 1))
 //@ func (*app.App).getNodeState$1
 //@   requires c20 [safety]: nodeState != nil && node != nil
 //@   requires blank: nodeState != nil ==> nodeState.SlaveState == nil && nodeState.MasterState == nil && nodeState.SemiSyncState == nil && !nodeState.IsMaster
 //@   ensures obs.ping [C05,C04,C10]: nodeState.PingOk == resultof("Ping", 1, 0)
 //@   ensures obs.disk_untouched [C18]: nodeState.DiskState == old(nodeState.DiskState)
+//@   ensures obs.daemon_untouched [C05]: nodeState.DaemonState == old(nodeState.DaemonState) && nodeState.IsFileSystemReadonly == old(nodeState.IsFileSystemReadonly)
 //@   ensures obs.readonly [C10,C18,C08]: reached("IsReadOnly", 1) && resultof("IsReadOnly", 1, 2) == nil ==> nodeState.IsReadOnly == resultof("IsReadOnly", 1, 0) && nodeState.IsSuperReadOnly == resultof("IsReadOnly", 1, 1)
 //@   ensures obs.offline [C17]: reached("IsOffline", 1) && resultof("IsOffline", 1, 1) == nil ==> nodeState.IsOffline == resultof("IsOffline", 1, 0)
 //@   ensures obs.role [C04,C05,C10,C16]: reached("GetReplicationSettings", 1) && resultof("GetReplicationSettings", 1, 1) == nil ==> (nodeState.IsMaster <==> resultof("GetReplicaStatus", 1, 0) == nil) && (nodeState.SlaveState != nil <==> resultof("GetReplicaStatus", 1, 0) != nil)
